@@ -43,6 +43,11 @@ def make_case(index, rng, tier):
     for i in range(rng.randrange(1, 4)):
         t += round(rng.uniform(0.4, 3.0), 2)
         hups.append({"t": round(t, 2), "workers": rng.randrange(1, 4), "tick": rng.randrange(20, 300) if rng.randrange(4) == 0 else None})
+    if rng.randrange(3) == 0:
+        # a second HUP (with yet another configuration) lands while the reload for the previous one may still be running
+        h0 = rng.choice(hups)
+        hups.append({"t": round(h0["t"] + rng.choice([0.01, 0.05, 0.12, 0.2, 0.3]), 2), "workers": rng.randrange(1, 4), "tick": None})
+        hups.sort(key=lambda h: h["t"])
     clients = []
     tc = 0.1
     while tc < t + 3.0 and len(clients) < 14:
@@ -56,7 +61,7 @@ def make_case(index, rng, tier):
         c["t"] = h["t"]
         h["tick"] = None
     return {"family": fam, "kind": kind, "workers": rng.randrange(1, 4), "hups": hups, "clients": clients,
-            "fine": rng.choice([0, 0, 2, 3]),
+            "fine": rng.choice([0, 0, 2, 3]), "bind": rng.choice(["127.0.0.1:8000", "127.0.0.1:8000", "localhost:8000"]),
             "graceful_timeout": rng.choice([2, 3, 4]), "threads": rng.randrange(1, 3),
             "buggify": {"pyticks": rng.randrange(3) == 0, "fork_child_first": rng.randrange(2) == 0, "spurious_select": rng.randrange(3) == 0,
                         "random_spawn_delay": rng.randrange(2) == 0, "short_recv": rng.randrange(4) == 0}}
@@ -72,7 +77,7 @@ def run(case, choices):
     sim.fine_interleave = case.get("fine", 0)
     gt = case["graceful_timeout"]
     fam = case["family"]
-    cfg = {"workers": case["workers"], "timeout": 30, "graceful_timeout": gt, "bind": ["127.0.0.1:8000"], "proc_name": "m0",
+    cfg = {"workers": case["workers"], "timeout": 30, "graceful_timeout": gt, "bind": [case.get("bind", "127.0.0.1:8000")], "proc_name": "m0",
            "pidfile": "/run/g.pid"}
     w = master.World(sim, cfg)
     if fam == "full":
@@ -85,6 +90,11 @@ def run(case, choices):
         return w.masters.get(m.pid)
 
     def observer(s, actor, kind, detail):
+        if actor == m.name and kind == "handler" and detail == "SIGHUP":
+            a = arb()
+            if a is not None and len(a.SIG_QUEUE) < 5:
+                # the master's own signal handler takes this HUP into its queue: it has to be acted upon
+                state.setdefault("accepted", []).append((s.now, int(w.cfgsrc["proc_name"][1:])))
         if actor == m.name and kind == "handle" and detail == "hup":
             a = arb()
             state["pre_ages"] = [wk.age for wk in a.WORKERS.values()]
@@ -173,6 +183,11 @@ def run(case, choices):
                 markers = sorted({a.WORKERS[p.pid].cfg.proc_name for p in live if p.pid in a.WORKERS})
                 # expected values from what the master itself loaded last
                 last_load = [c for c in w.config_loads if c[0] == m.pid][-1]
+                acc = state.get("accepted", [])
+                if acc and int(last_load[2][1:]) < acc[-1][1]:
+                    res.violate("C10:%s:hup-dropped" % fam,
+                                "the master took a HUP into its queue at t=%.2f when configuration m%d was in place, but the last configuration "
+                                "it loaded is %s: a reload request was lost; %s" % (acc[-1][0], acc[-1][1], last_load[2], ctx()))
                 if len(live) != last_load[1]:
                     res.violate("C10:%s:pool-size-after-reload" % fam, "%d live workers %.1f s after the last HUP, the reloaded configuration says %d; %s"
                                 % (len(live), sim.now - state["hup_handled"][-1], last_load[1], ctx()))
